@@ -62,6 +62,9 @@ class ZeepInProc(object):
 
         class T(Transport):
             def load(self, url):
+                # the client is given the WSDL alone: nothing else can be fetched
+                if url != 'http://localhost/?wsdl':
+                    raise IOError('no such document for a client that has the WSDL alone: %s' % url)
                 return wsdl_bytes
 
             def post(self, address, message, headers):
